@@ -77,7 +77,7 @@ const MAX_IN_BLOCK_DISTACE: usize = 1 << 16;
 /// extra data structures to support fast `select0` queries,
 /// which otherwise are not supported.
 
-#[derive(Default, Debug, Clone, Serialize, Deserialize, PartialEq)]
+#[derive(Debug, Clone, Serialize, Deserialize, PartialEq)]
 pub struct DArray<const SELECT0_SUPPORT: bool = false> {
     bv: BitVector,
     ones_inventories: Inventories<true>,
@@ -187,6 +187,13 @@ impl<const BIT: bool> Inventories<BIT> {
 }
 
 /// Const genetic SELECT0_SUPPORT
+impl<const SELECT0_SUPPORT: bool> Default for DArray<SELECT0_SUPPORT> {
+    /// Creates an empty `DArray`, with `select0` support when requested.
+    fn default() -> Self {
+        Self::new(BitVector::default())
+    }
+}
+
 impl<const SELECT0_SUPPORT: bool> DArray<SELECT0_SUPPORT> {
     /// Creates a [`DArray`] from a [`BitVector`].
     ///
